@@ -684,6 +684,15 @@ def check_dot(case):
             if not close(outer[ni, nj].data, ar[ni].data * br[nj].data):
                 raise Violation(f"{where}: outer_product(a, b)[{ni!r}, {nj!r}] != a[{ni!r}] b[{nj!r}]",
                                 key=f"dot:{cls}:outer")
+    # the same through the operator factories of both backends (the compiled numba operator and
+    # its overload are code paths of their own; added after seeded change C19-3 was missed)
+    for be in ("numpy", "numba"):
+        got = np.asarray(ar.make_outer_prod_operator(backend=be)(ar.data, br.data))
+        for i, ni in enumerate(names):
+            for j, nj in enumerate(names):
+                if got.shape != (d, d) + shp or not close(got[i, j], ar[ni].data * br[nj].data):
+                    raise Violation(f"{where}: make_outer_prod_operator({be!r})(a, b)[{ni!r}, {nj!r}] != "
+                                    f"a[{ni!r}] b[{nj!r}]", key=f"dot:{cls}:outer-operator:{be}")
     Tv = data(dot(T, a))
     vT = data(dot(a, T))
     TS = data(dot(T, S))
@@ -1124,6 +1133,10 @@ SUBCHECKS = [
     SubCheck("dot_outer_order", strategy=dot_cases, check=check_dot, mode="nojit",
              budget={"quick": 200, "thorough": 3000}, shards={"quick": 1, "thorough": 2},
              rule="non-trivial = every case (random components)"),
+    SubCheck("dot_outer_order_jit", strategy=dot_cases, check=check_dot, mode="jit",
+             budget={"quick": 8, "thorough": 120}, shards={"quick": 2, "thorough": 6},
+             time_limit={"quick": 120, "thorough": 1500},
+             rule="as dot_outer_order with really compiled operators (overload bodies of dot/outer)"),
     SubCheck("conversion_commutes_polar", strategy=lambda: commute_cases("polar"), check=check_commute,
              mode="nojit", budget={"quick": 160, "thorough": 3000}, shards={"quick": 2, "thorough": 4},
              rule=NT_CONV),
